@@ -94,7 +94,7 @@ CLAIMED = {
              "(root hash + database only) reaches exactly these states: its counts are the true reference counts, its database holds "
              "exactly the live nodes with their encodings (Free.run_pruning_exact, Free.op_is_executor_op). WHOLE HISTORIES WITH squash_changes BLOCKS (Props/HistoryBlocks.lean): after any history of direct calls and blocks - each left normally or by an exception - pruning on or off, the trie is the tree of the FLATTENED history (committed blocks contribute their calls, aborted ones nothing), the database is complete for it and - pruning - holds exactly the live nodes with true counts (Free.history_blocks_world, history_blocks_pruning_exact), get of the tree-free world returns the flattened history's map model value and never raises (history_blocks_get), its root is the Yellow Paper root of those contents and depends on nothing else (history_blocks_root, history_blocks_root_depends_only_on_contents); applied to a concrete history with a committed and an aborted block (NonVacuity9). Tie: exact key set, "
              "counts, regenerate_ref_count after every operation; the raw-level reader on the model's pruned database after every op; the "
-             "tree-free executor alongside every direct operation (outcome, root, full database, counts).",
+             "tree-free executor alongside every direct operation (outcome, root, full database, counts). A REFUSED FIRST WRITE (Props/C06Refused.lean): a set/delete on a plain database that refuses the next write and is stopped by it leaves database, failure counter, counts and pending marks exactly as they were (first_write_refused_atomic; the count is incremented only after the write), and one that is not stopped had nothing to write (first_write_refused_ok_wrote_nothing); the quick check injects such operations.",
         technique="Lean 4 proof (structural induction, balance invariant) + correspondence check",
         design_ref="6/C06"),
     "C03": dict(
@@ -200,7 +200,7 @@ CLAIMED = {
              "statements machine-refuted, counterexamples kept) - so the two executors stay equal along whole histories with withheld nodes. Tie: result or every exception field, state after the "
              "failure, retry loop run to convergence, inside and outside squash_changes; the raw-level set/delete, get and traverse "
              "are run on the same incomplete databases (reported node, consumed nibbles, result), and so is the tree-free executor on its "
-             "own copy of the damaged database (outcome, root, full database, counts after every attempt of the retry loop). Whole histories in which node bodies disappear from the database and are supplied again between the calls: the tree-free executor and the tree-carrying one return the same outcome at every call and reach the same state, the partial-consistency invariant is kept, and a call that raises MissingTrieNode changed nothing and names an absent node on the path (Free.beam_history_lockstep, beam_invariant_step, beam_failed_call_atomic).",
+             "own copy of the damaged database (outcome, root, full database, counts after every attempt of the retry loop). Whole histories in which node bodies disappear from the database and are supplied again between the calls: the tree-free executor and the tree-carrying one return the same outcome at every call and reach the same state, the partial-consistency invariant is kept, and a call that raises MissingTrieNode changed nothing and names an absent node on the path (Free.beam_history_lockstep, beam_invariant_step, beam_failed_call_atomic). THE WHOLE RETRY LOOP (Props/C07Retry.lean): the caller's loop - attempt; on MissingTrieNode h fetch exactly h from a source that has the nodes; attempt again - written out for get and for set/delete and proved to end within outstanding+2 attempts, asking for no hash twice and only for hashes that were absent; the lookup loop returns the value of the complete database (get_retry_loop_converges, op_retry_loop_converges; evaluated on a three-node trie whose database starts empty in NonVacuity12).",
         technique="Lean 4 proof (event-order invariant ReadsFirst, executor case analysis) + correspondence check with node removal",
         design_ref="6/C07"),
     "C12": dict(
@@ -221,7 +221,7 @@ CLAIMED = {
              "database is add-only, for every input (Raw.bin_refused_saves_nothing, bin_db_add_only, binT_agrees). That the kv/branch/leaf "
              "byte encoding is the specified one is pinned by the independent canonical encoder of the harness and C16. EARLIER ROOTS (Props/C12History.lean): after any history the write log only grew (bin_history_log_grows) and, the final log being functional (no hash bound to two bodies - a run-level fact), BinaryTrie(db, root_i).get over the FINAL database returns the map model's value after the first i calls, for every i and key (bin_history_old_roots_readable; NonVacuity10). Tie: outcome, "
              "root, exact database, get/exists after every call; old roots re-read through the Lean Layer-D reader; the raw-level run "
-             "on its own root and database alongside every history (root per call, database, lookups).",
+             "on its own root and database alongside every history (root per call, database, lookups). WITH REFUSED CALLS (Props/C12Refusals.lean): the raw-level run that goes on after a NodeOverrideError, as a caller's program does, reports exactly the tree-level refusals, ends at the root of the tree-level history with that whole tree stored, and get over its database returns the map model with the prefix rule (bin_history_with_refusals, bin_history_with_refusals_get; NonVacuity13: two refused writes in the middle of a history).",
         technique="Lean 4 proof (case-for-case tree model, canonical-form uniqueness) + correspondence check",
         design_ref="6/C12"),
     "C16": dict(
